@@ -640,7 +640,7 @@ func C15() kit.Engine {
 		Id:  "C15",
 		New: func(st *kit.Stats) kit.SeqSim { return &c15{st: st} },
 		Desc: kit.Description{
-			Rule: "one run = one drawn history over a pool of up to 12 extended keys (NewMaster, NewKeyFromString, NewExtendedKey from fresh field copies, Child, Neuter, SetNet, String, ECPubKey, ECPrivKey, Address) with Zero of an arbitrary live key injected at drawn points; after every step every live key is observed (String, IsPrivate, Depth, ParentFingerprint, IsForNet x4, ECPubKey, ECPrivKey, one rotating probe Child) against an independent BIP32 model value, and every zeroed key's captured buffers are inspected; non-trivial = at least one Zero while a related key (parent, child, twin, copy, sibling) is live and observed afterwards; distinct = distinct FNV-64 signature of the executed op list",
+			Rule: "one run = one drawn history over a pool of up to 12 extended keys (NewMaster incl. distinguished seeds, NewKeyFromString of the library's and of the model's string, NewExtendedKey from fresh field copies incl. depth 254/255 and negated points, Child, Neuter, SetNet, String, ECPubKey, ECPrivKey, Address, calls on zeroed keys) with Zero of an arbitrary live key injected at drawn points; live keys are observed against an independent BIP32 model value after every step, sparsely, or only at the end (drawn per run), returned key objects are modified by the harness, every zeroed key's captured buffers are inspected; non-trivial = at least one Zero while a related key (parent, child, twin, copy, sibling) is live and observed afterwards; distinct = distinct FNV-64 signature of the executed op list",
 			RealVsStub: map[string]string{
 				"hdkeychain.ExtendedKey (all methods), base58, bchutil.Hash160/Address": "real (from /repo working tree)",
 				"bchec curve arithmetic, crypto hashes":                                 "real dependencies (trusted, shared with the model)",
